@@ -58,7 +58,9 @@ func alphabet() []op {
 		op{"svcUp", "s1", ""}, op{"svcUp", "s2", ""}, op{"svcDown", "s1", ""}, op{"svcDown", "s2", ""},
 		// the connection is reset instead of closed: the teamserver's own Close() of it reports an error
 		op{"svcDownReset", "s1", ""},
-		op{"addSvc", "n1", "s1"}, op{"addSvc", "n2", "s2"}, op{"addExC2", "n2", "s1"}, op{"addExC2", "n1", "s1"}, op{"addExC2", "n1", "s2"}, op{"addExC2x2", "x1", "s1"})
+		op{"addSvc", "n1", "s1"}, op{"addSvc", "n2", "s2"}, op{"addExC2", "n2", "s1"}, op{"addExC2", "n1", "s1"}, op{"addExC2", "n1", "s2"}, op{"addExC2x2", "x1", "s1"},
+		// a second listener of s2 whose endpoint is the first one's spelt with a leading slash
+		op{"addExC2slash", "n2", "s2"})
 	return a
 }
 
@@ -307,6 +309,11 @@ func (w *world) apply(o op) {
 		for _, n := range []string{o.name, o.name + "b"} {
 			w.svcSend(s, map[string]any{"Head": map[string]any{"Type": "Listener", "RequestID": "r1"}, "Body": map[string]any{"Type": "ListenerAddExC2", "Name": n, "Endpoint": "ex-" + n + "-" + o.arg}})
 		}
+	case "addExC2slash":
+		// whether "/x" and "x" are one endpoint or two is the teamserver's business; either way
+		// every listed listener owns a routed endpoint and removing one leaves the other's alone
+		s := w.svc[o.arg]
+		w.svcSend(s, map[string]any{"Head": map[string]any{"Type": "Listener", "RequestID": "r1"}, "Body": map[string]any{"Type": "ListenerAddExC2", "Name": o.name, "Endpoint": "/ex-n1-" + o.arg}})
 	case "addExC2":
 		s := w.svc[o.arg]
 		w.svcSend(s, map[string]any{"Head": map[string]any{"Type": "Listener", "RequestID": "r1"}, "Body": map[string]any{"Type": "ListenerAddExC2", "Name": o.name, "Endpoint": "ex-" + o.name + "-" + o.arg}})
@@ -325,7 +332,7 @@ func (w *world) enabled(maxRemoves int) []int {
 			if s := w.svc[o.name]; s == nil || !s.up {
 				continue
 			}
-		case "addSvc", "addExC2", "addExC2x2":
+		case "addSvc", "addExC2", "addExC2x2", "addExC2slash":
 			if s := w.svc[o.arg]; s == nil || !s.up {
 				continue
 			}
@@ -532,6 +539,10 @@ func (w *world) invariants(last op) (string, string) {
 	owned := map[string]bool{}
 	for _, l := range w.ts.T.Listeners {
 		if e, ok := l.Config.(*handlers.External); ok {
+			if owned[e.Config.Endpoint] {
+				// an endpoint routes to one listener only: with two on one endpoint, removing either takes the other's route away
+				return "two-external-listeners-one-endpoint/after:" + last.kind, fmt.Sprintf("endpoint %q belongs to two External listeners (%s is the second)", e.Config.Endpoint, l.Name)
+			}
 			owned[e.Config.Endpoint] = true
 		}
 	}
